@@ -11,7 +11,8 @@ package trie
 // The property does not speak about the JSON text, only about the trie that
 // comes back, so the model serialises abstractly: a nil map is the byte 'N';
 // otherwise 'M', the number of entries, and per entry either ('n', key) for a
-// nil child or ('c', key, 2-byte length, the child's MarshalJSON output).
+// nil child or ('c', key, 2-byte length, the child's MarshalJSON output); a
+// key is a length byte and the key's bytes.
 // Control bytes and lengths are concrete, keys stay symbolic data. Decoding
 // does what encoding/json does with a map field: a nil map is made, existing
 // entries are kept and overwritten by key, a null child becomes a nil
@@ -35,23 +36,91 @@ func vpJSONMarshal(v any) ([]byte, error) {
 	if name == "-" || (omitEmpty && len(mt.M) == 0) {
 		return []byte{'E'}, nil // an object without the field
 	}
-	if mt.M == nil {
+	return vpMarshalMap(mt.M)
+}
+
+// vpMarshalMap / vpUnmarshalMap are generic in the key type of the mirror
+// struct's map, so that the model keeps compiling (and keeps deciding) when the
+// key type changes. Keys: a byte is one byte; a string key is written the way
+// encoding/json writes strings - every byte that is not part of valid UTF-8
+// is replaced by U+FFFD - with a length byte in front.
+func vpMarshalMap[K comparable](m map[K]*Trie) ([]byte, error) {
+	if m == nil {
 		return []byte{'N'}, nil
 	}
-	out := []byte{'M', byte(len(mt.M))}
-	for k, child := range mt.M {
+	out := []byte{'M', byte(len(m))}
+	for k, child := range m {
+		var kb []byte
+		switch x := any(k).(type) {
+		case byte:
+			kb = []byte{1, x}
+		case string:
+			var enc []byte
+			for _, r := range x { // ranging decodes UTF-8; invalid bytes give U+FFFD
+				enc = append(enc, string(r)...)
+			}
+			kb = append([]byte{byte(len(enc))}, enc...)
+		default:
+			vpUnsupported("map key type of the mirror struct")
+		}
 		if child == nil {
-			out = append(out, 'n', k)
+			out = append(out, 'n')
+			out = append(out, kb...)
 			continue
 		}
 		b, err := child.MarshalJSON()
 		if err != nil {
 			return nil, err
 		}
-		out = append(out, 'c', k, byte(len(b)>>8), byte(len(b)))
+		out = append(out, 'c')
+		out = append(out, kb...)
+		out = append(out, byte(len(b)>>8), byte(len(b)))
 		out = append(out, b...)
 	}
 	return out, nil
+}
+
+func vpUnmarshalMap[K comparable](pm *map[K]*Trie, data []byte) error {
+	if len(data) == 1 && data[0] == 'N' {
+		*pm = nil
+		return nil
+	}
+	if len(data) < 2 || data[0] != 'M' {
+		vpUnsupported("json text outside the model")
+	}
+	if *pm == nil {
+		*pm = map[K]*Trie{}
+	}
+	n := int(data[1])
+	i := 2
+	for e := 0; e < n; e++ {
+		tag := data[i]
+		kl := int(data[i+1])
+		raw := data[i+2 : i+2+kl]
+		i += 2 + kl
+		var zero K
+		var key K
+		switch any(zero).(type) {
+		case byte:
+			key = any(raw[0]).(K)
+		case string:
+			key = any(string(raw)).(K)
+		default:
+			vpUnsupported("map key type of the mirror struct")
+		}
+		if tag == 'n' {
+			(*pm)[key] = nil
+			continue
+		}
+		l := int(data[i])<<8 | int(data[i+1])
+		child := new(Trie)
+		if err := child.UnmarshalJSON(data[i+2 : i+2+l]); err != nil {
+			return err
+		}
+		(*pm)[key] = child
+		i += 2 + l
+	}
+	return nil
 }
 
 // vpJSONTag: name and omitempty option of the json tag of marshalTrie's only
@@ -78,34 +147,7 @@ func vpJSONUnmarshal(data []byte, v any) error {
 	if name, _ := vpJSONTag(); name == "-" {
 		return nil
 	}
-	if len(data) == 1 && data[0] == 'N' {
-		p.M = nil
-		return nil
-	}
-	if len(data) < 2 || data[0] != 'M' {
-		vpUnsupported("json text outside the model")
-	}
-	if p.M == nil {
-		p.M = map[byte]*Trie{}
-	}
-	n := int(data[1])
-	i := 2
-	for e := 0; e < n; e++ {
-		tag, k := data[i], data[i+1]
-		if tag == 'n' {
-			p.M[k] = nil
-			i += 2
-			continue
-		}
-		l := int(data[i+2])<<8 | int(data[i+3])
-		child := new(Trie)
-		if err := child.UnmarshalJSON(data[i+4 : i+4+l]); err != nil {
-			return err
-		}
-		p.M[k] = child
-		i += 4 + l
-	}
-	return nil
+	return vpUnmarshalMap(&p.M, data)
 }
 
 // vpMembers lists what ForEach reports.
